@@ -624,6 +624,8 @@ type c17RerunCase struct {
 	// while the retry of the first one is still waiting for its delay. The retry budget is one for
 	// the job: all in all at most 2 + maxRetries executions.
 	ExtraTrigger bool `json:"extraTrigger,omitempty"`
+	// Full: the job is a fullsync job (FullSyncPipeline has its own interrupt and error returns)
+	Full bool `json:"full,omitempty"`
 }
 
 type c17Exec struct {
@@ -707,8 +709,12 @@ func (env *c17Env) rerun(c c17RerunCase) (problem, infra string, inconclusive bo
 		rr["maxRetries"] = c.MaxRetries
 	}
 	onErr = append(onErr, rr)
+	jobType := ""
+	if c.Full {
+		jobType = "fullsync"
+	}
 	jobs, err := h.addJob(vjJobJSON(vjJob{ID: id, Source: map[string]any{"Type": "SampleSource", "NumberOfEntities": 1},
-		Sink: map[string]any{"Type": "DevNullSink"}, OnError: onErr}))
+		Sink: map[string]any{"Type": "DevNullSink"}, OnError: onErr, JobType: jobType}))
 	if err != nil || len(jobs) != 1 {
 		return "", fmt.Sprintf("scheduler rejected the job: %v", err), false
 	}
@@ -830,6 +836,9 @@ func TestVerif_C17_rerun(t *testing.T) {
 				break
 			}
 		}
+		if c.Full {
+			cls = append(cls, "rerun-fullsync-job")
+		}
 		kit.S().Case(c, nt, cls...)
 	}
 	var rc c17RerunCase
@@ -845,6 +854,7 @@ func TestVerif_C17_rerun(t *testing.T) {
 			DelayMs:    rapid.IntRange(1, 6).Draw(t, "delayMs"),
 			WithLog:    rapid.Bool().Draw(t, "withLog"),
 			AtSink:     rapid.Bool().Draw(t, "atSink"),
+			Full:       rapid.IntRange(0, 2).Draw(t, "fullsync") == 0,
 		}
 		n := rapid.IntRange(0, 5).Draw(t, "scriptLen")
 		for i := 0; i < n; i++ {
